@@ -233,7 +233,7 @@ def check(model, rep, tier):
             line=vf.node.lineno, witness='x = 1; def h(a=x): return a')
 
   # ---------------------------------------------------------------- dependencies
-  rep.depends('C05', ['CFG-STMT', 'CFG-PAIR', 'CFG-TRY', 'CFG-SCOPE', 'CFG-KEYED', 'CFG-JUMP', 'CFG-LEAVES'],
+  rep.depends('C05', None,
               'reaching definitions are propagated along the edges of this graph: '
               'a missing edge loses the definitions that travel over it')
   rep.depends('C08', ['ACT-TRAV', 'PARAMS'],
